@@ -271,9 +271,22 @@ class StoreProfile(Profile):
         """Expressions for the parties. FindInList gets the model's entity list of each config."""
         m = run.m
         out = {}
+        lv = (run.params or {}).get("list_variant", "plain")
         for c in m.configs:
             out["P:" + c] = X.call("FindInPaths", c)
-            out["L:" + c] = X.call("FindInList", run.store.listing(c))
+            items = run.store.listing(c)
+            if lv == "strip":
+                # do_strip strips the RETURNED items only (matching is done on the entries as given, so entries with a
+                # trailing newline legitimately do not match a literal ending -- tried first, a false expectation): on a
+                # clean list the option must change nothing
+                out["L:" + c] = X.call("FindInList", items, do_strip=True)
+                run.probes["findinlist_do_strip"] += 1
+            elif lv == "presort":
+                # unsorted list with repeats, sorted and uniquified by the finder: same set of answers
+                out["L:" + c] = X.call("FindInList", list(reversed(items)) + items[:3], do_pre_sort=True)
+                run.probes["findinlist_do_pre_sort"] += 1
+            else:
+                out["L:" + c] = X.call("FindInList", items)
         out["A"] = X.call("FindInAll")
         return out
 
